@@ -811,6 +811,54 @@ def mi_harness(e):
     return {"first": first, "class": F.__name__, "pair": (variants[i][0], variants[j][0])}
 
 
+def after_failure_harness(e):
+    """Ids are functions of the node alone: a construction that was rejected a moment ago (anywhere in
+    the process, whatever the class) leaves nothing behind for the next node that is built."""
+    from models.shapes import number
+
+    reset_all()
+    pool = [number(x) for x in all_shapes(3, 3)] + EXTRA_BASES[:6]
+    rno = e.choice(len(pool), "recipe")
+    recipe = pool[rno]
+    ref = build(recipe)
+    want = [(type(i.node).__name__, i.node.id, i.node.content_id) for i in ref.dfs()] + [(type(ref).__name__, ref.id, ref.content_id)]
+    ref.detach()
+    del ref
+    failure = e.pick(["a-non-node-in-a-tuple-child-field", "None-for-a-tuple-child-field", "an-unknown-keyword", "a-property-whose-str-raises", "an-origin-without-fqn"], "rejected_construction")
+
+    class _Bad:
+        def __str__(self):
+            raise RuntimeError("no text")
+
+        __repr__ = __str__
+
+    try:
+        if failure.startswith("a-non-node"):
+            CLASSES["VMany"](items=(CLASSES["VLeaf"](v=5), 1))
+        elif failure.startswith("None-for"):
+            CLASSES["VMany"](items=None)
+        elif failure.startswith("an-unknown"):
+            CLASSES["VLeaf"](v=1, nope=2)
+        elif failure.startswith("a-property"):
+            CLASSES["VTyped"](a=_Bad())
+        else:
+            CLASSES["VLeaf"](v=1, origin=object())
+        raised = False
+    except Exception:  # noqa: BLE001
+        raised = True
+    from pyoak.node import NODE_REGISTRY
+
+    NODE_REGISTRY.clear()
+    again = build(recipe)
+    got = [(type(i.node).__name__, i.node.id, i.node.content_id) for i in again.dfs()] + [(type(again).__name__, again.id, again.content_id)]
+    scenario = {"tree": describe(recipe), "rejected_construction": failure, "it_raised": raised}
+    if got != want:
+        scenario.update(ids_without_the_failure=want[:4], ids_after_the_failure=got[:4])
+        e.fail("ids-depend-on-an-earlier-rejected-construction", scenario=scenario)
+    e.distinct((rno, failure))
+    return scenario
+
+
 def spec(tier: str, seed: int) -> Spec:
     n_pairs, n_edit = (3, 4) if tier == "quick" else (4, 6)
     small = all_shapes(n_pairs, 3)
@@ -823,6 +871,7 @@ def spec(tier: str, seed: int) -> Spec:
     fams.append(Family("all-pairs", make_pairs_harness(small), variables="selectors: two recipes"))
     fams.append(Family("special-pairs", special_harness, variables="selector: pair from a pool of value-level cases"))
     fams.append(Family("loaded-nodes", loaded_harness, variables="selectors: payload case (edited property / value normalised by the format), format"))
+    fams.append(Family("after-a-rejected-construction", after_failure_harness, variables="selectors: recipe, kind of rejected construction just before"))
     fams.append(Family("field-order", field_order_harness, variables="selector: declaration order of the class"))
     fams.append(Family("non-init-comparable-properties", noninit_harness, variables="selectors: names (the computed property follows), position"))
     fams.append(Family("class-relatives", relatives_harness, variables="selectors: two classes from a family related by inheritance (three of them share one __name__), child, construction order"))
